@@ -186,3 +186,11 @@ Print Assumptions C02_record_chunks_is_source.
 Print Assumptions C02_source_never_panics.
 Print Assumptions C02_source_wellformed_11.
 Print Assumptions C02_record_steps_are_source.
+
+(* message boundaries: the NETCONF read loop as translated (one round, all 512 combinations): the
+   buffer is examined after every append, an echo of the own rpc is cut at the first delimiter of the
+   session's version, a complete reply is filed whole *)
+From Scrapli Require Import NcReadSrc.
+Theorem C02_read_round_is_source : nc_read_table_ok = true.
+Proof. exact nc_read_round_is_source. Qed.
+Print Assumptions C02_read_round_is_source.
